@@ -904,6 +904,12 @@ func (w *World) resolveLoopCallTargets(fr *Frame, st *State, keys []string, inLo
 						return
 					}
 					for _, t := range te {
+						if t.member != nil && !t.whole {
+							// a set of objects (each(s, f)): no single target; every call proves that the
+							// members were allocated since function entry (checked at the call)
+							w.loopFreshOnly[t.key] = true
+							continue
+						}
 						if t.whole || t.member != nil || strings.Contains(t.idx.S, "poison!") || t.idx.S == "" {
 							bad[t.key] = true
 							continue
@@ -914,6 +920,10 @@ func (w *World) resolveLoopCallTargets(fr *Frame, st *State, keys []string, inLo
 					return
 				}
 				for _, t := range ts {
+					if t.member != nil && !t.whole {
+						w.loopFreshOnly[t.key] = true
+						continue
+					}
 					if t.whole || t.member != nil || strings.Contains(t.idx.S, "poison!") || t.idx.S == "" {
 						bad[t.key] = true
 						continue
@@ -961,6 +971,18 @@ func (w *World) loopCallWriteCheck(fr *Frame, st *State, targets []modTarget) {
 			}
 			w.callOrd["loopwrite"]++
 			name := fmt.Sprintf("loopwrite.%d.%s.call-target", w.callOrd["loopwrite"], t.key)
+			if t.member != nil && !t.whole {
+				q := w.sc.fresh("mw!", SInt)
+				alts := []Term{lt(pol.headAlloc, q), eq(q, intLit(0))}
+				if pol.freshOnly {
+					alts = append(alts, lt(w.hget(fr.entry, allocKey), q))
+				}
+				for _, pt := range pol.targets {
+					alts = append(alts, eq(q, pt))
+				}
+				w.oblige("loop.write", name, st.cond, implies(t.member(q), or(alts...)), false, props)
+				continue
+			}
 			if t.whole || t.member != nil {
 				o := w.oblige("loop.write", name, st.cond, tFalse, false, props)
 				o.Result = &SolverResult{Status: "undecided", Output: "a call inside the loop may write " + t.key + " at objects the loop head did not resolve"}
